@@ -955,14 +955,36 @@ def csv_trace(m, fi):
             return [('one', u(subst(c.args[0], env, where)))]
         return rows.stream(fi, c.args[0], env)
 
+    def has_return(node):
+        return any(isinstance(x, ast.Return) for x in ast.walk(node))
+
     def walk(stmts, env):
-        for s in stmts:
+        """-> True when the statement list always leaves the function (rows written after it are never reached)"""
+        for k_, s in enumerate(stmts):
+            if isinstance(s, ast.Return):
+                if write_calls(s):
+                    raise Undecided(f'{where}: a row is written inside {u(s)[:80]}')
+                return True          # everything after it is dead: the stream ends here
+            if isinstance(s, ast.If) and not write_calls(s) and has_return(s):
+                # an early exit: the rows written after it are written only when it is not taken
+                rest_start = len(st['stream'])
+                done = walk(stmts[k_ + 1:], env)
+                later = st['stream'][rest_start:]
+                iters = {seg[2] for seg in later if seg and seg[0] == 'each' and len(seg) >= 3}
+                t_ = u(subst(s.test, env, where))
+                empty = {f for it in iters for f in (f'not {it}', f'len({it}) == 0', f'0 == len({it})', f'{it} == []', f'[] == {it}')}
+                if not (later and all(seg[0] == 'each' for seg in later) and len(iters) == 1 and t_ in empty and not s.orelse
+                        and all(isinstance(x, ast.Return) and x.value is None for x in s.body)):
+                    # (leaving early when the only rows still to come are one per element of an EMPTY sequence changes nothing)
+                    st['stream'] = st['stream'][:rest_start] + [(f'unless `{u(s.test)[:40]}` returns first',) + seg for seg in later]
+                return done
             if isinstance(s, ast.With):
                 for i in s.items:
                     if i.optional_vars is not None and isinstance(i.optional_vars, ast.Name):
                         st['files'].add(i.optional_vars.id)
                         st['opened'][i.optional_vars.id] = subst(i.context_expr, env, where)
-                walk(s.body, env)
+                if walk(s.body, env):
+                    return True
             elif isinstance(s, ast.Assign) and len(s.targets) == 1 and isinstance(s.targets[0], ast.Name):
                 if is_ctor(s.value):
                     st['writers'][s.targets[0].id] = s.value
@@ -1018,12 +1040,12 @@ def csv_trace(m, fi):
                 walk(s.body, dict(env))
                 walk(s.orelse, dict(env))
                 st['stream'] = saved + [(f'under `if {u(s.test)[:40]}`',) + seg for seg in st['stream']]
-            elif isinstance(s, (ast.Pass, ast.Return)) or (isinstance(s, ast.Expr) and isinstance(s.value, ast.Constant)):
-                if write_calls(s):
-                    raise Undecided(f'{where}: a row is written inside {u(s)[:80]}')
+            elif isinstance(s, ast.Pass) or (isinstance(s, ast.Expr) and isinstance(s.value, ast.Constant)):
+                pass
             else:
                 if write_calls(s) or mentions(s):
                     raise Undecided(f'{where}: rows are written under a statement the rule cannot evaluate: {u(s)[:80]}')
+        return False
     walk(fi.node.body, {})
     st['calls'] = len(write_calls(fi.node))
     st['visited'] = rows.visited
@@ -2311,6 +2333,9 @@ from ..variants import V  # noqa: E402
 _R = 'src/gambit/results.py'
 _J = 'src/gambit/util/json.py'
 VARIANTS = [
+    V('guard clause: a single result returns after the header (early-exit probe)', 'B', 'src/gambit/results.py', "\t\t\twriter.writerow(self.get_header())\n", "\t\t\twriter.writerow(self.get_header())\n\t\t\tif len(results.items) == 1:\n\t\t\t\treturn\n", 'E3'),
+    V('E: guard clause: no results -> return after the header', 'E', 'src/gambit/results.py', "\t\t\twriter.writerow(self.get_header())\n", "\t\t\twriter.writerow(self.get_header())\n\t\t\tif not results.items:\n\t\t\t\treturn\n"),
+    V('guard clause: no results -> return BEFORE the header', 'B', 'src/gambit/results.py', "\t\t\twriter.writerow(self.get_header())\n", "\t\t\tif not results.items:\n\t\t\t\treturn\n\t\t\twriter.writerow(self.get_header())\n", 'E3'),
     V('next.rank reports the name', 'B', _R, "('next.rank', 'classifier_result.next_taxon.rank'),", "('next.rank', 'classifier_result.next_taxon.name'),", 'E2'),
     V('closest.description from the primary match', 'B', _R, "('closest.description', 'classifier_result.closest_match.genome.description'),", "('closest.description', 'classifier_result.primary_match.genome.description'),", 'E2'),
     V('path step renamed in COLUMNS only', 'B', _R, "('predicted.name', 'report_taxon.name'),", "('predicted.name', 'reported_taxon.name'),", 'E1'),
